@@ -107,6 +107,29 @@ pub const MUST_REJECT_DEFS: &[(&str, &str, &str)] = &[
     ("#[logos(subpattern lb = \"^a\")]", "#[regex(\"(?&lb)b\")]", "look-behind at the token start (inside a subpattern)"),
     ("#[logos(subpattern d = \"[0-9]\")]", "#[regex(\"(?&d)(?&dd)\")]", "undefined subpattern next to a defined one"),
 ];
+/// Pattern tails that are unacceptable wherever they stand (regex syntax errors and unsupported features), as Rust
+/// string-literal bodies; combined by the C19 check with subpattern references in front of and behind them, so that
+/// positions inside the pattern as written and inside the pattern after substitution differ.
+pub const BAD_TAILS: &[(&str, &str)] = &[
+    ("x\\\\b", "Unicode word boundary"),
+    ("(a)\\\\1", "unsupported regex feature (backreference)"),
+    ("k\\\\7", "unsupported regex feature (backreference / octal escape)"),
+    ("a(?=b)", "unsupported regex feature (look-ahead group)"),
+    ("a(?!b)c", "unsupported regex feature (negative look-ahead group)"),
+    ("(?<=a)b", "unsupported regex feature (look-behind group)"),
+    ("(?&nope)", "undefined subpattern"),
+    ("(", "regex syntax error (unclosed group)"),
+    ("[a-", "regex syntax error (unclosed class)"),
+    ("a{2,1}", "regex syntax error (invalid repetition range)"),
+    ("\\\\p{Nope}", "regex syntax error (unknown Unicode class)"),
+    ("[z-a]", "regex syntax error (invalid class range)"),
+    ("\\\\xZZ", "regex syntax error (invalid hex escape)"),
+    ("é{", "regex syntax error (unclosed counted repetition)"),
+    ("(?P<n", "regex syntax error (unclosed group name)"),
+    ("\\\\", "regex syntax error (trailing backslash)"),
+];
+pub const REF_SUBPATTERNS: &[&str] = &["a", "[a-z]+[0-9]*(?:_[a-z]+)*", "é+", "日|本"];
+
 pub const MUST_REJECT_SHAPES: &[(&str, &str)] = &[
     ("{ x: u8 }", "named fields"),
     ("()", "empty tuple variant"),
